@@ -49,3 +49,31 @@ Proof. exact hint_and_comment. Qed.
 Theorem C02_error_before_comment : forall fr e c, lacks "#"%char fr -> lacks "*"%char fr -> lacks "<"%char fr -> lacks "#"%char e ->
   pkt_partition (fr ++ "*"%char :: e ++ "#"%char :: c) = (strip fr, strip e, strip c).
 Proof. exact error_before_comment. Qed.
+
+(* the CLI short form (Command.from_cli after tokenisation): three address tokens are the three address fields of the frame built ... *)
+Theorem C02_cli_triple_kept : forall verb seqn a b c code payload f,
+  cmd_from_cli verb seqn [a; b; c] code payload = Ok f ->
+  print_frame f = attrs_text verb seqn a b c code (firstn 48 payload).
+Proof. exact cli_triple_kept. Qed.
+(* ... and fewer tokens are completed as documented: one device = a request from the gateway's placeholder to it, the same device twice = an
+   announcement, two devices = source and destination *)
+Theorem C02_cli_short_forms : forall verb seqn a b code payload f,
+  str_eqb verb (lit " I") = false ->
+  (cmd_from_cli verb seqn [a] code payload = Ok f -> print_frame f = attrs_text verb seqn HGI_ADDR a NON_DEV code (firstn 48 payload)) /\
+  (cmd_from_cli verb seqn [a; a] code payload = Ok f -> print_frame f = attrs_text verb seqn a NON_DEV a code (firstn 48 payload)) /\
+  (str_eqb a b = false -> cmd_from_cli verb seqn [a; b] code payload = Ok f -> print_frame f = attrs_text verb seqn a b NON_DEV code (firstn 48 payload)).
+Proof. exact cli_short_forms. Qed.
+
+(* the whole CLI string (tokens of cmd_str.upper().split()): with the sequence number spelt out, three address tokens are the frame's three
+   address fields, whatever they are; without it, likewise when the first is a device id (a leading null address would be read as the
+   sequence number: such a frame needs its --- spelt out) *)
+Theorem C02_cli_toks_triple_kept : forall verb seqn a b c code payload f,
+  is_dev_id seqn = false ->
+  cmd_from_cli_toks [verb; seqn; a; b; c; code; payload] = Ok f ->
+  print_frame f = attrs_text verb seqn a b c code (firstn 48 payload).
+Proof. exact cli_toks_triple_kept. Qed.
+Theorem C02_cli_toks_triple_kept_no_seqn : forall verb a b c code payload f,
+  is_dev_id a = true ->
+  cmd_from_cli_toks [verb; a; b; c; code; payload] = Ok f ->
+  print_frame f = attrs_text verb (lit "---") a b c code (firstn 48 payload).
+Proof. exact cli_toks_triple_kept_no_seqn. Qed.
